@@ -8,12 +8,20 @@ mod render;
 mod util;
 mod cmd_core;
 
+/// Command families.  To add one: create src/cmd_xxx.rs with
+/// `pub fn dispatch(cmd: &str, v: &J) -> Option<Result<J, String>>`, add `mod cmd_xxx;` above
+/// and append `cmd_xxx::dispatch` to this list.
+const FAMILIES: &[fn(&str, &J) -> Option<Result<J, String>>] = &[
+    cmd_core::dispatch,
+];
+
 fn dispatch(cmd: &str, v: &J) -> Result<J, String> {
-    match cmd {
-        "eval" => cmd_core::eval(v),
-        "authorize" => cmd_core::authorize(v),
-        _ => Err(format!("unknown command {cmd}")),
+    for f in FAMILIES {
+        if let Some(r) = f(cmd, v) {
+            return r;
+        }
     }
+    Err(format!("unknown command {cmd}"))
 }
 
 fn main() {
